@@ -20,6 +20,7 @@ import NmVerif.Index.Matmul
   Core Lean only.
 -/
 namespace NmVerif
+open NmVerif.MB
 namespace Linalg
 
 /-! ## view combinators (polymorphic in the element type) -/
